@@ -83,12 +83,14 @@ pub struct BW {
     rules: Vec<Rule>,
     facts: HashMap<String, String>,
     pengine: Option<(BackwardEngine, String)>, // persistent engine and the config it was built for
+    rete: std::sync::Arc<std::sync::Mutex<rust_rule_engine::rete::propagation::IncrementalEngine>>, // attached to RETE-mode queries
     pfacts: Facts,                             // the caller's facts that persist across pqueries
 }
 
 impl BW {
     pub fn new(cfg: &Value) -> BW {
-        let mut b = BW { rules: vec![], facts: HashMap::new(), pengine: None, pfacts: Facts::new() };
+        let mut b = BW { rules: vec![], facts: HashMap::new(), pengine: None, pfacts: Facts::new(),
+                         rete: std::sync::Arc::new(std::sync::Mutex::new(rust_rule_engine::rete::propagation::IncrementalEngine::new())) };
         if let Some(setup) = cfg["setup"].as_array() {
             for l in setup {
                 b.apply(l);
@@ -142,7 +144,8 @@ impl Model for BW {
                 let strat = l["strat"].as_str().unwrap();
                 let neg = l["neg"].as_bool().unwrap_or(false);
                 let maxsol = l["maxsol"].as_u64().unwrap_or(1) as usize;
-                let tag = format!("{}/{}/{}", depth, strat, maxsol);
+                let with_rete = l["rete"].as_bool().unwrap_or(false);
+                let tag = format!("{}/{}/{}/{}", depth, strat, maxsol, with_rete);
                 if self.pengine.as_ref().map(|(_, t)| *t != tag).unwrap_or(true) {
                     // configuration is part of what an answer may depend on: one persistent engine per configuration
                     self.pengine = Some((mk_engine(&self.rules, depth, strat, maxsol, true), tag));
@@ -157,12 +160,36 @@ impl Model for BW {
                 }
                 let mut fresh = mk_engine(&self.rules, depth, strat, maxsol, true);
                 let (fv, _, _) = run_query_neg(&mut fresh, &mut copy, gf, gv, neg);
-                let (pv, _, _) = run_query_neg(&mut self.pengine.as_mut().unwrap().0, &mut self.pfacts, gf, gv, neg);
+                let pv = if with_rete {
+                    let q = format!("{}.v == {}", gf, if gv == "T" { "true" } else { "false" });
+                    let eng = self.rete.clone();
+                    let pe = &mut self.pengine.as_mut().unwrap().0;
+                    let pf = &mut self.pfacts;
+                    match catch_unwind(AssertUnwindSafe(|| pe.query_with_rete_engine(&q, pf, Some(eng)))) {
+                        Ok(Ok(r)) => if r.provable { "yes" } else { "no" }.to_string(),
+                        Ok(Err(_)) => "err".to_string(),
+                        Err(_) => "panic".to_string(),
+                    }
+                } else {
+                    run_query_neg(&mut self.pengine.as_mut().unwrap().0, &mut self.pfacts, gf, gv, neg).0
+                };
                 if fv == pv {
                     json!({"agrees": true})
                 } else {
                     json!({"agrees": false, "persistent_engine": pv, "fresh_engine": fv})
                 }
+            }
+            "rretract" => {
+                // retract, in the attached RETE engine, the k-th most recent live fact (derivations inserted logically by queries)
+                let k = l["k"].as_u64().unwrap_or(1) as usize;
+                if let Ok(mut e) = self.rete.lock() {
+                    let mut hs: Vec<_> = e.working_memory().get_all_handles();
+                    hs.sort_by_key(|h| std::cmp::Reverse(h.id()));
+                    if let Some(h) = hs.get(k - 1) {
+                        let _ = e.retract(*h);
+                    }
+                }
+                json!({"ok": true})
             }
             o => panic!("unknown op {}", o),
         }
